@@ -29,9 +29,18 @@ from loguru import logger
 from tawazi import consts
 from tawazi._helpers import StrictDict, UniqueKeyLoader
 from tawazi.config import cfg
-from tawazi.consts import ARG_NAME_ACTIVATE, RETURN_NAME_SEP, RVDAG, Identifier, P, Tag
+from tawazi.consts import (
+    ARG_NAME_ACTIVATE,
+    RETURN_NAME_SEP,
+    RVDAG,
+    USE_SEP_START,
+    Identifier,
+    P,
+    Tag,
+)
 from tawazi.errors import TawaziTypeError, TawaziUsageError
 from tawazi.node import Alias, ArgExecNode, ExecNode, ReturnUXNsType, UsageExecNode, node
+from tawazi.node.helpers import _lazy_xn_id
 from tawazi.node.node import LazyExecNode, ReturnExecNode, make_active, make_axn_id
 from tawazi.profile import Profile
 
@@ -695,7 +704,14 @@ class DAG(BaseDAG[P, RVDAG]):
 
             # NOTE: can't call the base describing function because composed DAGs can't be supported in that case
             #  so must modify ExecNodes of SubDAG
-            node.DAG_PREFIX.append(self.qualname)
+            # a SubDAG can be called several times in a DAG: each call gets its own prefix
+            prefix = ".".join(node.DAG_PREFIX + [self.qualname])
+            previous_calls = {
+                id_[len(prefix) :].split(".")[0]
+                for id_ in node.exec_nodes
+                if id_.startswith((prefix + ".", prefix + USE_SEP_START))
+            }
+            node.DAG_PREFIX.append(_lazy_xn_id(self.qualname, len(previous_calls)))
 
             def to_subdag_id(id_: str) -> str:
                 return ".".join(node.DAG_PREFIX + [id_])
